@@ -451,7 +451,38 @@ func PlanSchedule(g *Gen, p *Program, ei int, steps [][]uint64) {
 		if nt < 2 {
 			return
 		}
-		style := g.R.N(10) // 0: no pre-emption at all; 1: boundary only; else mixed
+		style := g.R.N(12) // 0: no pre-emption at all; 1: boundary only; 10, 11: victim; else mixed
+		if style >= 10 {
+			// One caller advances from synchronisation event to synchronisation
+			// event (lock acquisitions, atomic operations); every time it stops,
+			// another caller runs whole operations and hands the processor
+			// back. This is the shape of version/ABA mistakes in lock-free code:
+			// the state goes A -> B -> A while the victim sits between two
+			// loads. Without synchronisation events in the tree it is the
+			// "boundary only" style.
+			v := g.R.N(nt)
+			for ti := range ep.Tasks {
+				for oi := range ep.Tasks[ti].Ops {
+					op := &ep.Tasks[ti].Ops[oi]
+					op.Pre, op.After, op.PreLock = nil, nil, nil
+					if ti == v {
+						first := uint64(g.R.Range(1, 3))
+						for k := first; k < first+uint64(g.R.Range(1, 6)); k++ {
+							op.PreLock = append(op.PreLock, Preempt{Step: k, To: g.R.N(nt)})
+						}
+						continue
+					}
+					// hand the processor back to the victim after every
+					// operation (To counts live tasks round-robin from ti)
+					to := (v - ti - 1 + nt) % nt
+					if g.R.P(1, 8) {
+						to = g.R.N(nt)
+					}
+					op.After = &to
+				}
+			}
+			return
+		}
 		for ti := range ep.Tasks {
 			for oi := range ep.Tasks[ti].Ops {
 				op := &ep.Tasks[ti].Ops[oi]
@@ -544,6 +575,21 @@ func GenerateFocus(prof *Profile, seed, run uint64, kinds []string) (*Program, *
 			start += stride * g.R.Range(1, 3)
 		}
 	}
+	if g.R.P(1, 2) {
+		// the same for exponents (powers of ten are what conversions cache)
+		e0 := g.R.Range(-6150, 6000)
+		stride := []int{1, 2, 10, 16, 32, 64, 100, 128, 256, 1000, 1024}[g.R.N(11)]
+		c := g.R.Range(1, 9999)
+		var prog []string
+		for i := g.R.Range(2, 5); i > 0 && e0 <= 6100; i-- {
+			prog = append(prog, parseLitForGen(fmt.Sprintf("%de%d", c, e0)))
+			e0 += stride * g.R.Range(1, 3)
+		}
+		g.decs = append(g.decs, prog...)
+		if g.R.P(1, 2) {
+			g.decs = prog // narrow: every call collides with another one
+		}
+	}
 	g.decs = append(g.decs, g.Dec())
 	if g.R.P(1, 3) {
 		// wide variant: state that fills up with distinct arguments (caches
@@ -566,7 +612,7 @@ func GenerateFocus(prof *Profile, seed, run uint64, kinds []string) (*Program, *
 			use = append(use, kinds[g.R.N(len(kinds))])
 		}
 	}
-	tasks := g.tasksOf(p, g.R.Range(1, 2), 8, use, nil)
+	tasks := g.tasksOf(p, g.R.Range(1, 3), 8, use, nil)
 	// three different modes (every pair of them is compared by the
 	// permutation oracle), or two and the first one again
 	perm := []uint8{0, 1, 2, 3, 4, 5}
